@@ -567,4 +567,54 @@ theorem bloom_fold_no_false_negatives (init : List (List Nat)) (hn : 0 < init.le
 example : sbbfCheck (foldN ([0xdeadbeef12345678, 5].foldl sbbfInsert (List.replicate 4 zeroBlock)) 2) 5 = true := by
   decide
 
+/-! ## source shape ties -/
+
+/-- **The expressions the model mirrors are still written the way the model reads them.**
+Each `SHAPE_*` item of `tools/items/C07.py` is the literal text (whitespace-insensitive) of a
+guard / update / comparison in `/repo` (argument order of `compare_greater` in `update_min` /
+`update_max` / `get_min_max`, the NaN arms, the boundary-order comparisons, the truncation
+guards, `increment`, `increment_utf8`, the decimal branches, `Block::insert` / `check`, the
+`fold_n` loop, the ArrowWriter byte-array min/max update, …).  An edit of any of them makes
+the item LOST and this obligation false, so the theorems above are never silently about code
+that is no longer there. -/
+theorem source_shape_ties :
+    (SHAPE_UPDATE_MIN_lost ||
+     SHAPE_UPDATE_MAX_lost ||
+     SHAPE_UPDATE_STAT_lost ||
+     SHAPE_UPDATE_MIN_NAN_lost ||
+     SHAPE_UPDATE_MAX_NAN_lost ||
+     SHAPE_IS_NAN_F16_lost ||
+     SHAPE_NULL_PAGE_lost ||
+     SHAPE_NOT_ASCENDING_lost ||
+     SHAPE_NOT_DESCENDING_lost ||
+     SHAPE_BOUNDARY_ORDER_lost ||
+     SHAPE_LAST_MIN_MAX_lost ||
+     SHAPE_TRUNC_FILTER_lost ||
+     SHAPE_TRUNC_MIN_BIN_lost ||
+     SHAPE_TRUNC_MAX_BIN_lost ||
+     SHAPE_TRUNC_EXACT_lost ||
+     SHAPE_CAN_TRUNCATE_lost ||
+     SHAPE_TRUNCATE_UTF8_lost ||
+     SHAPE_TRUNC_INC_UTF8_lost ||
+     SHAPE_INC_UTF8_lost ||
+     SHAPE_INCREMENT_lost ||
+     SHAPE_DEC_EMPTY_lost ||
+     SHAPE_DEC_SHORT_lost ||
+     SHAPE_DEC_NOT_EQUAL_lost ||
+     SHAPE_DEC_TAILS_lost ||
+     SHAPE_DEC_EQUAL_lost ||
+     SHAPE_GET_MIN_MAX_lost ||
+     SHAPE_GET_MIN_MAX_NAN_lost ||
+     SHAPE_BLOOM_INSERT_ALL_lost ||
+     SHAPE_ARROW_MIN_lost ||
+     SHAPE_ARROW_MAX_lost ||
+     SHAPE_ARROW_MIN_MAX_lost ||
+     SHAPE_MASK_BIT_lost ||
+     SHAPE_BLOCK_INSERT_lost ||
+     SHAPE_BLOCK_CHECK_lost ||
+     SHAPE_SBBF_INSERT_lost ||
+     SHAPE_SBBF_CHECK_lost ||
+     SHAPE_FOLD_lost ||
+     SHAPE_BITOR_ASSIGN_lost) = false := by decide
+
 end ArrowModel.C07
